@@ -4,7 +4,9 @@ Naming.tla (model-checked): the lowering cache is keyed by name although lowerin
 denotes what the key denotes under ANY configuration, so values must be a function of the program alone.  Code level: every
 worker process replays one long history of TLC-enumerated programs (neighbours differ minimally and share sub-trees; every chunk
 grid of the small sources in sequence); the collections of the last 200 programs stay alive (singleton registry, shared lowering
-cache); every program is BUILT under one configuration and COMPUTED under another, drawn round-robin from the full product of
+cache); every program is BUILT under one configuration and COMPUTED under another (every third program has its LAST operation
+constructed under the second configuration as well: the setting in effect at construction may differ between an operand and its
+consumer), drawn round-robin from the full product of
 optimize-graph x rechunk threshold x degree-limit x method x chunk-size x unify policy x unify limit x split_every (384
 configurations), and an earlier collection is computed again after later programs were built.  TLC (Collection.HistoryVerdict)
 compares every value with the denotation computed by the specification."""
@@ -19,9 +21,9 @@ from ..modelcheck import add_models
 
 def plans(tier):
     if tier == "quick":
-        return [("d1-reduce-1d7", 64, 1), ("d1-reduce-1d", 16, 2), ("d1-1d", 16, 4), ("d1-2d", 4, 12), ("d1-rspec", 4, 1), ("d2-lean1", 4, 6), ("d2-lean2", 2, 24)]
+        return [("d1-reduce-1d7", 64, 1), ("d1-reduce-1d", 16, 2), ("d1-1d", 16, 4), ("d1-2d", 4, 12), ("d1-rspec", 4, 1), ("d2-lean1", 4, 6), ("d2-lean2", 2, 24), ("d3-chain1", 2, 8), ("d3-unify-reduce", 4, 2), ("d4-where-out", 2, 1), ("d3-inplace-dmd", 1, 8)]
     return [("d1-reduce-1d7", 64, 1), ("d1-reduce-1d", 16, 1), ("d1-reduce-2d", 8, 1), ("d1-1d-wide", 16, 1), ("d1-2d", 8, 2), ("d1-rspec", 8, 1), ("d2-lean1", 4, 1), ("d2-lean2", 2, 2), ("d2-lean3", 2, 4),
-            ("d2-rechunk-after", 1, 4)]
+            ("d2-rechunk-after", 1, 4), ("d3-chain1", 4, 1), ("d3-unify-reduce", 4, 1), ("d4-where-out", 4, 1), ("d3-inplace-dmd", 2, 1), ("d3-inplace-mdm", 2, 1)]
 
 
 def accept(v):
@@ -34,16 +36,15 @@ def run(chk):
         add_models(chk, ["Naming:cache"])
         evs, refs = [], {}
         for name, maxvar, stride in progcheck.dev_filter(plans(chk.tier)):
-            kw = dict(progcheck.CORPORA[name])
-            keep = kw.pop("keep", None)
-            kw.pop("observe_all", None)
+            kw, flags = progcheck.corpus_kwargs(name)
+            keep = flags["keep"]
             behs, res = replay.generate_programs(rundir=rd, timeout=3000, **kw)
             chk.add_tlc(res, f"gen:{name}")
             if keep is not None:
                 behs = [b for b in behs if keep(b)]
             picked = progcheck.stride_sample(behs, stride, chk.seed)
             del behs
-            out = history.run_corpus(picked, max_variants=maxvar, seed=chk.seed)
+            out = history.run_corpus(picked, max_variants=maxvar, seed=chk.seed, opts={"policy_pairs": name == "d3-unify-reduce"})
             if out.machinery:
                 raise tlc.MachineryError(f"spec/NumPy disagreement ({len(out.machinery)}): {out.machinery[0]}")
             for e in out.events:
